@@ -185,6 +185,11 @@ impl<T: TypeConfig> RaftRoleState for CandidateState<T> {
         {
             Ok(_) => {
                 debug!("BecomeLeader");
+                // The vote round may have outlasted the election timeout armed above. The Raft
+                // loop polls the tick before internal events, so without re-arming the timer
+                // the next iteration starts another election (term + 1) first and the queued
+                // BecomeLeader then makes this node leader of a term it never won.
+                self.timer.reset();
                 if let Err(e) = internal_event_tx.send(InternalEvent::BecomeLeader) {
                     error!(
                         "self.my_role_change_event_sender.send(RaftRole::Leader) failed: {:?}",
